@@ -318,7 +318,9 @@ class TreeLikelihoodModel(CallableModel):
         if rates.dim() == 1:
             rates = rates.expand(sample_shape + (1, -1))
         else:
-            rates = rates.reshape(sample_shape + (1, -1))
+            # the site model may carry fewer sample dimensions than the other models:
+            # broadcast (aligned on the right), never reinterpret the entries
+            rates = rates.unsqueeze(-2).expand(sample_shape + (1, -1))
         probs = self.site_model.probabilities().unsqueeze(-1).unsqueeze(-1)
         if self.clock_model is None:
             if branch_lengths.dim() == 1:
